@@ -61,7 +61,7 @@ def run(ctx):
         if not unlisted_violations(ctx):
             ctx.violation("model-tie", "unproven", {"broken": ctx.broken, "example": ctx.extra.get("disagreements", [])[:1]},
                           detail="; ".join(ctx.broken)[:500], kind="unproven", broken=ctx.broken)
-    ctx.assumptions = ["IDs restricted to int/str/tuple-of-atoms/None; bool/float IDs outside the model",
+    ctx.assumptions = ["node labels generated: int (incl. negative, colliding in small hash tables) and str, mixed; edge IDs generated: int (incl. 10**30 and 10**309), str, and the tuple IDs that merge_duplicate_edges(rename='tuple') creates; None as a malformed ID. Tuple NODE labels are in the model's domain but are not generated: the list formats of add_edges_from / add_nodes_from read a leading tuple as (members, id) / (node, attrs) (DESIGN 13.6); bool / float / numpy IDs only in the C04 provenance predicate",
                        "set iteration order and random.sample results are passed to the model as recorded oracles"]
     return finish(ctx, trusted_base=TRUSTED_COMMON)
 
